@@ -222,6 +222,10 @@ def prevalidated(ef: Effects, f: FuncInfo, c_event, rej) -> str | None:
             continue
         # the checker called earlier is the rejection's own function, or one that can raise the very same guard
         pure = [g for g in tg if g.key in cand or rej.key in ef.summary(g).rejs]
+        # … and the checker reaches that guard whatever else holds: where it only forwards to the function that owns the guard, the
+        # forwarding call is not under a test of its own (`if value.is_initializer(): self._check_can_set_graph(value)` checks
+        # ownership for initializers only, the commit rejects every foreign value)
+        pure = [g for g in pure if not _forwards_conditionally(ef, g, rej)]
         if not pure:
             continue
         xn = cfg.nodes_containing(x)
@@ -248,6 +252,32 @@ def prevalidated(ef: Effects, f: FuncInfo, c_event, rej) -> str | None:
                     continue
                 return f"every element of `{it1}` passed {pure[0].local} in an earlier loop"
     return None
+
+
+def _forwards_conditionally(ef: Effects, g: FuncInfo, rej) -> bool:
+    """The checker g does not own the guard and every call through which it can reach it sits under an if-test."""
+    from ..effects import path_condition
+
+    if rej.origin == g.key or isinstance(g.node, ast.Lambda):
+        return False
+    sites = []
+    for x in calls_in(g):
+        tg, _st = ef._call_targets(g, x)
+        if any(h.key == rej.origin or rej.key in ef.summary(h).rejs for h in tg or ()):
+            sites.append(x)
+    if not sites:
+        return False
+    return all(path_condition(x, g.node) != "always" and not _only_guard_negations(x, g.node) for x in sites)
+
+
+def _only_guard_negations(node, stop) -> bool:
+    """The statement is enclosed by no if at all (its path condition comes from guard clauses before it only)."""
+    p = getattr(node, "_parent", None)
+    while p is not None and p is not stop:
+        if isinstance(p, (ast.If, ast.IfExp, ast.While, ast.Try, ast.For)):
+            return False
+        p = getattr(p, "_parent", None)
+    return True
 
 
 def _checks_every_element(loop, check_call) -> bool:
